@@ -4,7 +4,6 @@ import math
 import json
 import re
 import numpy as np
-import scipy.linalg
 import sympy
 from lib import concolic
 from lib.symtrace import Gen, sym_input, coq_expr, input_pattern, coq_type
@@ -137,9 +136,17 @@ def build(ctx):
     shape_of = {'M22': (2, 2), 'M33': (3, 3), 'M44': (4, 4)}
 
     def tr(name, inputs, fn, **kw):
+        """fail-soft: an operator that can no longer be executed on symbols (e.g. a new float-only comparison in it) is a
+        no-input finding `trace:<name>`; the theorems that mention the missing definition stop compiling (reported as
+        broken obligations) and the oracle still runs and looks for a concrete failing input"""
         concolic.PATH.clear()
         with concolic.object_alloc():
-            t = g.trace(name, inputs, fn, **kw)
+            t = g.trace(name, inputs, fn, optional=True, **kw)
+        if t is None:
+            why = [r for n, r in g.failed if n == name][-1]
+            ctx.fail(f'trace:{name}', f"{name}: the library call can not be executed on symbolic operands any more ({why[:300]}); "
+                     f"the theorems about it are not re-established on this tree", {'trace': name, 'error': why}, no_input=True)
+            return None
         if not re.search(r' O\b| [-+*/] ', t.term):
             # a result that involves no arithmetic (a transposition, X**1): keep the uniform signature `tr O x`
             t.term = "let _ := zero O in\n  " + t.term
@@ -266,6 +273,21 @@ class MatAlg:
         assert type(x) is self.cls and len(x) == k, f"result is {type(x).__name__} of length {len(x)}, expected {k}"
         return [np.asarray(e.A, dtype=float) for e in x]
 
+    def tiny(self, rng):
+        """a very small but NON-identity element: rotation angle and translation of magnitude 1e-12..1e-8 (either may
+        be exactly zero, not both) -- nano-scale increments; an implementation that treats 'close to the identity'
+        as 'the identity' (np.allclose: 1e-8) drops them"""
+        n = self.n
+        th = 0.0 if (self.se and rng.random() < 0.3) else log_uniform(rng, 1e-12, 1e-8) * rng.choice([-1.0, 1.0])
+        R = rot_from_axis_angle(rand_unit(rng), th) if n == 3 else np.array([[math.cos(th), -math.sin(th)], [math.sin(th), math.cos(th)]])
+        if not self.se:
+            return R
+        T = np.eye(self.N)
+        T[:n, :n] = R
+        if th == 0.0 or rng.random() < 0.7:
+            T[:n, n] = rand_unit(rng, n) * log_uniform(rng, 1e-12, 1e-8)
+        return T
+
     def sample(self, rng):
         n = self.n
         R = rand_rot(rng) if n == 3 else rand_rot2_full(rng)
@@ -308,6 +330,11 @@ class QuatAlg:
     def unwrap_seq(self, x, k):
         assert type(x) is UnitQuaternion and len(x) == k, f"result is {type(x).__name__} of length {len(x)}, expected {k}"
         return [np.asarray(e.vec, dtype=float) for e in x]
+
+    def tiny(self, rng):
+        th = log_uniform(rng, 1e-12, 1e-8) * rng.choice([-1.0, 1.0])
+        q = np.r_[math.cos(th / 2), math.sin(th / 2) * rand_unit(rng)]
+        return q / np.linalg.norm(q)
 
     def sample(self, rng):
         R = rand_rot(rng)                       # rotation angle over [0, pi] incl. the ends
@@ -568,6 +595,15 @@ def oracle_groups(ctx):
                 m = log_uniform(rng, 1e-6, 1e6)
                 for r in raw:
                     r[:alg.n, alg.n] = rand_unit(rng, alg.n) * m
+            if i % 5 == 1:
+                # nano-scale increments composed with data of magnitude 1e-6: one to three of the operands are tiny
+                # non-identity motions, the others get translations of 1e-6 (so the allowed error is 1e-9 absolute)
+                which = [j for j in range(3) if rng.random() < 0.5] or [1]
+                for j in range(3):
+                    if j in which:
+                        raw[j] = alg.tiny(rng)
+                    elif alg.se:
+                        raw[j][:alg.n, alg.n] = rand_unit(rng, alg.n) * 1e-6
             n = int(rng.integers(-8, 9))
             for law, lt, rt in laws(n):
                 check_pair(ctx, alg, law, lt, rt, raw)
@@ -672,8 +708,8 @@ def exp_ref2(S):
 def twist_sample(rng, dim):
     """twist [v, w]: rotation angle over [0, pi] incl. the ends, moment 1e-6..1e6"""
     r = rng.random()
-    th = (0.0 if r < 0.08 else math.pi if r < 0.16 else log_uniform(rng, 1e-12, 1e-1) if r < 0.28
-          else math.pi - log_uniform(rng, 1e-12, 1e-1) if r < 0.40 else rng.uniform(0, math.pi))
+    th = (0.0 if r < 0.08 else math.pi if r < 0.16 else log_uniform(rng, 1e-16, 1e-1) if r < 0.30
+          else math.pi - log_uniform(rng, 1e-16, 1e-1) if r < 0.44 else rng.uniform(0, math.pi))
     if dim == 3:
         return np.r_[rand_trans(rng, 1e-6, 1e6), rand_unit(rng) * th]
     return np.r_[rand_trans(rng, 1e-6, 1e6, 2), th * rng.choice([-1.0, 1.0])]
@@ -681,9 +717,8 @@ def twist_sample(rng, dim):
 
 def tw_eval(name, cls, t, leaves, diag):
     """evaluate a twist tree with the class operators; BEFORE every product the argument of the logarithm that
-    `__mul__` is about to take, exp(x) @ exp(y), is recomputed with the same library calls and its rotation angle
-    (and, for 2-D, whether scipy's logm of it comes back complex) is recorded in diag -- the classification of a
-    failure by root cause uses the implementation's own values, not a reference that may round differently"""
+    `__mul__` is about to take, exp(x) @ exp(y), is recomputed with the same library calls, so that a failure can be
+    classified by root cause from the implementation's own values (not from a reference that may round differently)"""
     k = t[0]
     if k == 'leaf':
         return leaves[t[1]]
@@ -692,18 +727,15 @@ def tw_eval(name, cls, t, leaves, diag):
     if k == 'mul':
         x, y = tw_eval(name, cls, t[1], leaves, diag), tw_eval(name, cls, t[2], leaves, diag)
         with np.errstate(all='ignore'):
-            if name == 'Twist3':
-                M = base.trexp(x.S) @ base.trexp(y.S)
-            else:
-                M = base.trexp2(x.S) @ base.trexp2(y.S)
-                diag['logm_complex'] = diag['logm_complex'] or bool(np.iscomplexobj(scipy.linalg.logm(M)))
+            M = base.trexp(x.S) @ base.trexp(y.S) if name == 'Twist3' else base.trexp2(x.S) @ base.trexp2(y.S)
         fin = bool(np.all(np.isfinite(M)))
         diag['angles'].append(rot_angle(M[:-1, :-1]) if fin else float('nan'))
-        if name == 'Twist3' and fin and not base.iseye(M[:3, :3]) and diag['angles'][-1] < TINY:
-            # R is not within iseye's 10 eps of the identity, yet its rotation angle (robust atan2 form; it can be exactly
-            # 0 when the round-off in R is symmetric) is below TINY: base.trlog's general branch divides by sin(acos ..) ~ 0
-            # or by |w| = 0
-            diag['tiny'] = True
+        if name == 'Twist3' and fin:
+            R = M[:3, :3]
+            if not base.iseye(M) and not base.iseye(R) and np.array_equal(R, R.T) and abs(np.trace(R) + 1) > 0.5:
+                # round-off left R exactly SYMMETRIC but not within iseye's 10 eps of I: base.trlog's general branch
+                # (after /repo 84bd1d7) computes st = |vex((R - R')/2)| = 0 and divides skw by it: 0/0 = NaN
+                diag['symmetric'] = float(np.linalg.norm(R - np.eye(3)))
         return x * y
     if k == 'inv':
         return tw_eval(name, cls, t[1], leaves, diag).inv()
@@ -725,28 +757,16 @@ def tw_ref(t, mats, inv, info):
     return r
 
 
-TINY = 3e-8        # log argument not recognised by iseye (10 eps) but rotation angle < TINY: base.trlog divides by sin 0 / by 0
-NEAR_PI = 1e-3     # pi - angle < NEAR_PI: base.trlog loses accuracy like eps / (pi - angle)^2 (and the half-turn branch)
-
-
 def twist_cause(name, diag):
-    """root-cause class of a twist-law failure, from the logarithm arguments the implementation actually formed"""
-    if name == 'Twist2':
-        return 'logm-complex' if diag['logm_complex'] else 'generic'
-    if diag.get('tiny'):
-        return 'tiny-angle'
-    band = 'generic'
-    for a in diag['angles']:
-        if not math.isfinite(a):
-            continue
-        if math.pi - a < NEAR_PI:
-            band = 'near-pi'
-    return band
+    """root-cause class of a twist-law failure, from the logarithm arguments the implementation actually formed.
+    Since /repo 84bd1d7 (trlog) and c4462a7 (closed-form trlog2) the laws are required to 1e-7 over the WHOLE angle
+    range; the one remaining cause is the symmetric-round-off case described in tw_eval"""
+    return 'trlog-symmetric-roundoff' if diag.get('symmetric') is not None else 'generic'
 
 
 def oracle_twists(ctx):
     rng = ctx.rng
-    N = ctx.n(150, 3000)
+    N = ctx.n(600, 20000)
     X, Y, Z, I = ('leaf', 0), ('leaf', 1), ('leaf', 2), ('id',)
     tlaws = [('assoc', ('mul', ('mul', X, Y), Z), ('mul', X, ('mul', Y, Z))),
              ('compose', ('mul', X, Y), None),
@@ -770,7 +790,7 @@ def twist_case(ctx, name, cls, expr, alg, law, lt, rt, raw):
         tw_ref(rt, mats, alg.inv, info)
     scale = max(1.0, info['tmax'])
     ctx.case((name, law, tuple(np.concatenate(raw))))
-    diag = {'angles': [], 'logm_complex': False}
+    diag = {'angles': []}
     rep = {'kind': 'twist', 'class': name, 'law': law, 'lhs': tree_str(lt), 'rhs': tree_str(rt) if rt else 'exp(X)*exp(Y)',
            'lhs_tree': lt, 'rhs_tree': rt, 'twists_hex': [hexl(S) for S in raw], 'twists': [S.tolist() for S in raw]}
     try:
@@ -801,7 +821,8 @@ def twist_case(ctx, name, cls, expr, alg, law, lt, rt, raw):
 
 
 _AX = [1 / math.sqrt(14), 2 / math.sqrt(14), 3 / math.sqrt(14)]
-# deterministic operands that sit in the bands of the known defects (so that they reproduce with every seed)
+# deterministic operands: regression cases of the defects repaired by /repo 84bd1d7 (trlog near pi / tiny angles) and c4462a7
+# (trlog2 via logm), now required to hold under the per-law generic keys; the 4th Twist3 entry is the remaining finding
 TWIST_SPECIALS = {
     'Twist3': [
         [[0.3, -0.2, 0.5] + [a * (math.pi - 1e-6) for a in _AX], [0.1, 0.2, 0.3, 0.2, -0.1, 0.4], [1, 0, 0, 0, 0, 0.5]],
